@@ -42,6 +42,13 @@ Theorem C17_dist_free : forall rv d i k1 k2 conds,
 Proof. exact eval_conditions_dist_free. Qed.
 Print Assumptions C17_dist_free.
 
+(* is_path (built from the origin by appending an edge and its target) read from the front:
+   is_pathb g o w (x :: l) checks x = o, o is an existing node, and l = [e1; n1; ...; ek; nk]
+   where every ei is an existing edge from the previous node to ni, ending at w *)
+Theorem C17_is_path_checker : forall g o w p, adj_ok g -> (is_pathb g o w p = true <-> is_path g o w p).
+Proof. exact is_pathb_spec. Qed.
+Print Assumptions C17_is_path_checker.
+
 (* ---- the internal result of the loop, started as path_search starts it ---- *)
 
 (* soundness: a non-empty result is a path from the origin to the destination, all of whose
@@ -109,6 +116,16 @@ Theorem C17_path_search_sound : forall rv d conds o dst r,
 Proof. exact path_search_sound. Qed.
 Print Assumptions C17_path_search_sound.
 
+(* for ANY condition list, also distance-dependent ones (where element costs depend on the path
+   and only this part of the property is meaningful): a non-empty answer consists of the
+   flagged elements of a directed path from the origin to the destination *)
+Theorem C17_sound_any_conditions : forall rv d conds dst,
+  adj_ok (gr d) -> forall o r, 0 < o -> 0 < dst ->
+  path_search rv d conds o dst = Some r -> r <> [] ->
+  exists els, r = map fst (filter snd els) /\ is_path (gr d) o dst (map fst els).
+Proof. exact path_search_any_sound. Qed.
+Print Assumptions C17_sound_any_conditions.
+
 (* origin = destination, or an endpoint that is not a node: empty *)
 Theorem C17_degenerate : forall rv d conds o dst,
   o = dst \/ is_node (gr d) o = false \/ is_node (gr d) dst = false ->
@@ -149,6 +166,8 @@ Example C17_cost_vs_hops :
   adj_ok (gr db5) /\ dist_free conds5 = true /\
   path_search rv_fixed db5 [] 1 5 = Some [1; -6; 2; -7; 5] /\
   path_search rv_fixed db5 conds5 1 5 = Some [1; -8; 3; -9; 4; -10; 5] /\
+  is_pathb (gr db5) 1 5 [1; -6; 2; -7; 5] = true /\
+  is_pathb (gr db5) 1 5 [1; -8; 3; -9; 4; -10; 5] = true /\
   cost rv_fixed db5 conds5 [1; -6; 2; -7; 5] = 7 /\
   cost rv_fixed db5 conds5 [1; -8; 3; -9; 4; -10; 5] = 6.
 Proof. exact ex_cost_vs_hops. Qed.
@@ -173,6 +192,22 @@ Example C17_nothing_selected :
   path_search rv_fixed dbg cs 1 3 = Some [].
 Proof. exact ex_nothing_selected. Qed.
 Print Assumptions C17_nothing_selected.
+
+(* Why optimality and "empty iff no usable path" are stated for dist_free conditions.
+   graph6: 1 -(-7)-> 2 -(-8)-> 3, 1 -(-9)-> 4 -(-10)-> 5 -(-11)-> 3, 3 -(-12)-> 6; conds6 =
+   distance < 7 and "not one of 2, -7, -8".  Node 3 is settled through the cheaper 3-hop path;
+   from there edge -12 is met at "distance" 8 and refused.  Along 1 -7 2 -8 3 -12 6 every
+   element has a non-zero cost at the distance the search gives it, yet the result is empty. *)
+Example C17_distance_dependent :
+  adj_ok (gr db6) /\ dist_free conds6 = false /\
+  path_search rv_fixed db6 conds6 1 6 = Some [] /\
+  is_pathb (gr db6) 1 6 [1; -7; 2; -8; 3; -12; 6] = true /\
+  map fst [path_cost rv_fixed db6 conds6 (-7) 2; path_cost rv_fixed db6 conds6 2 2;
+           path_cost rv_fixed db6 conds6 (-8) 4; path_cost rv_fixed db6 conds6 3 4;
+           path_cost rv_fixed db6 conds6 (-12) 6; path_cost rv_fixed db6 conds6 6 6] = [2; 2; 2; 1; 1; 1] /\
+  path_search rv_fixed db6 [Cond LAnd MNone (CDistance (KLessThan 7))] 1 6 = Some [1; -7; 2; -8; 3; -12; 6].
+Proof. exact ex_distance_dependent. Qed.
+Print Assumptions C17_distance_dependent.
 
 Example C17_degenerate_examples :
   path_search rv_fixed dbg [] 1 1 = Some [] /\ path_search rv_fixed dbg [] 1 9 = Some [] /\
